@@ -181,6 +181,39 @@ WRAP_CONTAINERS = {
 WRAP_SETTINGS = [{"wrap_python": True}, {"wrap_lua": True}, {"wrap_c": True}, {"wrap_c": True, "wrap_fortran": True}, {"wrap_c": True, "wrap_python": True}]
 
 
+# (1e) an option that is not in the default table (read with options.get): reaches a function from any distance
+EXTERN_BASE = """\
+library: ext
+cxx_header: ext.hpp
+options:
+  wrap_python: false
+  wrap_lua: false
+declarations:
+- decl: int top_count(int n)
+- decl: namespace inner
+  declarations:
+  - decl: double scale(double x, int n)
+  - decl: namespace deep
+    declarations:
+    - decl: void reset()
+    - block: true
+      declarations:
+      - decl: int depth(int n)
+- block: true
+  declarations:
+  - decl: namespace boxed
+    declarations:
+    - decl: int inside(int n)
+"""
+EXTERN_CONTAINERS = {
+    "library": (),
+    "namespace": ("declarations", 1),
+    "nested-namespace": ("declarations", 1, "declarations", 1),
+    "block-in-nested-namespace": ("declarations", 1, "declarations", 1, "declarations", 1),
+    "block-around-namespace": ("declarations", 2),
+}
+
+
 # (1d) enumerations: a setting on the enum declaration itself == the same setting on a block that holds only that enum
 ENUM_BASE = """\
 library: En
@@ -356,6 +389,25 @@ declarations:
 """
 
 
+# the members of a class (constructor, destructor, methods, overloads, an enum) grouped into empty blocks
+BLOCK_CLASS_BASE = """\
+library: Blk
+cxx_header: blk.hpp
+options:
+  wrap_python: true
+  wrap_lua: true
+declarations:
+- decl: class Widget
+  declarations:
+  - decl: Widget()
+  - decl: Widget(int n)
+  - decl: ~Widget()
+  - decl: int size() const
+  - decl: enum Mode { ON, OFF }
+  - decl: void rename(const std::string &s)
+"""
+
+
 def compositions(n):
     """All ways to cut a list of n items into contiguous groups."""
     for cuts in itertools.product([0, 1], repeat=n - 1):
@@ -441,6 +493,10 @@ def run(ctx):
             for f in functions_under(node_at(b, WRAP_CONTAINERS[container])):
                 f.setdefault("options", {}).update(setting)
             add(("wrap-placement", "+".join(sorted(setting)), container), a, b)
+    xbase = yaml.safe_load(EXTERN_BASE)
+    for container in EXTERN_CONTAINERS:
+        a, b = placement_pair(xbase, "options", "C_extern_C", True, container, EXTERN_CONTAINERS)
+        add(("placement", "options", "C_extern_C", "extern-" + container), a, b)
     ebase = yaml.safe_load(ENUM_BASE)
     for kind, name, value in ENUM_SETTINGS:
         for site in ENUM_SITES:
@@ -472,6 +528,13 @@ def run(ctx):
     # (2)
     for site, inline, plain, extra in ATTR_CASES:
         add(("attribute", site, inline), attr_desc(inline), attr_desc(plain, extra))
+        # the same on declarations from which further functions are derived: fortran_generic variants, default-argument variants
+        if site == "arg" and inline.endswith(")") and plain.endswith(")") and "std::vector" not in inline and "void *p" not in inline:
+            gen = {"fortran_generic": [{"decl": "(float scale)"}, {"decl": "(double scale)"}]}
+            gi, gp = inline[:-1] + ", double scale)", plain[:-1] + ", double scale)"
+            add(("attribute", site + "+fortran_generic", gi), attr_desc(gi, dict(gen)), attr_desc(gp, dict(extra, **gen)))
+            di, dp = inline[:-1] + ", int k = 1)", plain[:-1] + ", int k = 1)"
+            add(("attribute", site + "+default", di), attr_desc(di), attr_desc(dp, extra))
     # (3)
     cli_base = yaml.safe_load(CLI_BASE)
     nopt = len(OPTSET)
@@ -528,6 +591,17 @@ def run(ctx):
                     new.append({"block": True, "declarations": [copy.deepcopy(decls[i]) for i in g]})
             d["declarations"] = new
             add(("blocks", str(groups), wrap_single), blk, d)
+    cblk = yaml.safe_load(BLOCK_CLASS_BASE)
+    members = cblk["declarations"][0]["declarations"]
+    for groups in compositions(len(members)):
+        if all(len(g) == 1 for g in groups):
+            continue
+        if quick and len(groups) not in (1, 2, len(members) - 1):
+            continue
+        d = copy.deepcopy(cblk)
+        d["declarations"][0]["declarations"] = [copy.deepcopy(members[g[0]]) if len(g) == 1 else
+                                                {"block": True, "declarations": [copy.deepcopy(members[i]) for i in g]} for g in groups]
+        add(("blocks", "class members " + str(groups), False), cblk, d)
     # nested empty blocks
     d = copy.deepcopy(blk)
     d["declarations"] = [{"block": True, "declarations": [{"block": True, "declarations": copy.deepcopy(decls)}]}]
